@@ -2,7 +2,7 @@
 
 use crate::core::*;
 use crate::gen::Project;
-use crate::modinfo::{self, ModInfo};
+use crate::modinfo;
 use crate::run::{self, run_lib_default, Cfg, LibStatus, Sandbox, Schedule};
 use crate::ts::{self, Expr, Type};
 use rayon::prelude::*;
@@ -28,6 +28,9 @@ pub const ITEMS: [(&str, bool); 14] = [
     ("#[tauri::commands]\npub fn NAME() -> i32 { 7 }\n#[tauri::ipc::command]\npub fn NAME_b() -> i32 { 8 }\n#[command::tauri]\npub fn NAME_c() -> i32 { 9 }\n", false),
 ];
 
+/// two commands whose TypeScript names coincide (`NAME_x_y` / `NAME_x__y`): each still needs its wrapper
+pub const SAME_CAMEL: &str = "#[tauri::command]\npub fn NAME_x_y() -> i32 { 1 }\n#[tauri::command]\npub fn NAME_x__y() -> i32 { 2 }\n";
+
 pub const POSITIONS: [&str; 4] = ["src/lib.rs", "src/a/mod.rs", "src/a/b/c/deep.rs", "src/z_last.rs"];
 
 #[derive(Debug, Clone, Serialize, Deserialize)]
@@ -47,6 +50,9 @@ pub struct Case {
     /// that many extra source files, one command each, spread over directories of depth 0..3
     #[serde(default)]
     pub many: usize,
+    /// one more file with two commands whose camelCase names coincide
+    #[serde(default)]
+    pub same_camel: bool,
 }
 
 impl Case {
@@ -71,6 +77,11 @@ impl Case {
             let name = format!("many_{}", i);
             files.push((format!("{}/m{:02}.rs", dir, i), format!("#[tauri::command]\npub fn {}(a: i32) -> i32 {{ a }}\npub fn helper_{}() {{}}\n", name, i)));
             expected.insert(name);
+        }
+        if self.same_camel {
+            files.push(("src/twins.rs".into(), SAME_CAMEL.replace("NAME", "twin")));
+            expected.insert("twin_x_y".to_string());
+            expected.insert("twin_x__y".to_string());
         }
         let mut links = vec![];
         if let Some(k) = self.symlinked {
@@ -110,10 +121,16 @@ fn observe(files: &BTreeMap<String, String>) -> Result<Observed, String> {
         return Ok(o);
     };
     let m = ts::parse_module(src).map_err(|e| format!("commands.ts: {}", e))?;
-    let mi = ModInfo::of(&m);
-    for d in mi.decls.iter().filter(|d| d.exported && d.kind == modinfo::DeclKind::Function) {
+    // (walk the items themselves: two wrappers may carry the same name - that is C02's business -
+    // and a by-name table would show only one of them)
+    struct D<'a> {
+        name: String,
+        f: &'a ts::Function,
+    }
+    let decls: Vec<D> = m.items.iter().filter_map(|it| if let ts::Item::Func { exported: true, func } = it { Some(D { name: func.name.clone().unwrap_or_default(), f: func }) } else { None }).collect();
+    for d in decls.iter() {
         o.exported_functions.push(d.name.clone());
-        let f = &mi.funcs[&d.name];
+        let f = d.f;
         let calls = modinfo::calls_of(f, "invoke");
         if calls.len() != 1 {
             o.problems.push(format!("wrapper {} contains {} invoke calls", d.name, calls.len()));
@@ -309,20 +326,27 @@ pub fn run(tier: Tier) -> CheckResult {
                 symlinked: if i % 3 == 2 { Some(i % l.len()) } else { None },
                 zod: i % 2 == 1,
                 many: 0,
+                same_camel: false,
             });
         }
+    }
+    // two commands whose TypeScript names coincide: both keep their wrapper (that the two wrappers
+    // then share a name is C02's recorded finding)
+    for zod in [false, true] {
+        cases.push(Case { files: vec![], decoy_target: false, decoy_git: false, decoy_txt: false, unparsable: false, under_target_dir: false, symlinked: None, zod, many: 0, same_camel: true });
+        cases.push(Case { files: vec![(0, vec![0, 2]), (1, vec![1])], decoy_target: true, decoy_git: false, decoy_txt: false, unparsable: false, under_target_dir: false, symlinked: None, zod, many: 3, same_camel: true });
     }
     // many source files: every count from 5 to 40 (quick) / 96 (thorough), one command per file, alone
     // and next to a two-file layout with decoys
     for many in 5..=(if tier == Tier::Quick { 40 } else { 96 }) {
         for zod in [false, true] {
-            cases.push(Case { files: vec![], decoy_target: false, decoy_git: false, decoy_txt: false, unparsable: false, under_target_dir: false, symlinked: None, zod, many });
+            cases.push(Case { files: vec![], decoy_target: false, decoy_git: false, decoy_txt: false, unparsable: false, under_target_dir: false, symlinked: None, zod, many, same_camel: false });
         }
-        cases.push(Case { files: vec![(0, vec![0, 7]), (2, vec![1])], decoy_target: true, decoy_git: true, decoy_txt: true, unparsable: many % 2 == 0, under_target_dir: false, symlinked: None, zod: many % 2 == 1, many });
+        cases.push(Case { files: vec![(0, vec![0, 7]), (2, vec![1])], decoy_target: true, decoy_git: true, decoy_txt: true, unparsable: many % 2 == 0, under_target_dir: false, symlinked: None, zod: many % 2 == 1, many, same_camel: many % 5 == 0 });
     }
     // the project itself below a directory named target
     for l in layouts.iter().filter(|l| l.len() == 1 && l[0].1.len() == 1).take(8) {
-        cases.push(Case { files: l.clone(), decoy_target: false, decoy_git: false, decoy_txt: false, unparsable: false, under_target_dir: true, symlinked: None, zod: false, many: 0 });
+        cases.push(Case { files: l.clone(), decoy_target: false, decoy_git: false, decoy_txt: false, unparsable: false, under_target_dir: true, symlinked: None, zod: false, many: 0, same_camel: false });
     }
     let results: Vec<Option<(Vec<Violation>, bool, Option<String>)>> = cases.par_iter().map(|c| if deadline.passed() { None } else { Some(eval(c)) }).collect();
     let mut evaluations = 0u64;
